@@ -15,7 +15,7 @@ ASSUMPTIONS = [
 def probe_known(ctx, k):
     """F7: SIGINT during worker_pool's thread start-up (real signal, subprocess)."""
     here = os.path.dirname(os.path.dirname(os.path.abspath(__file__)))
-    env = dict(os.environ, PYTHONPATH="/repo/src")
+    env = dict(os.environ, PYTHONPATH=os.environ.get("VERIF_REPO", "/repo") + "/src")
     try:
         r = subprocess.run(["/venv/bin/python", os.path.join(here, "probes", "ki_during_spawn.py")], capture_output=True, text=True,
                            timeout=20, env=env)
